@@ -589,3 +589,38 @@ def range_for_ptr(elem_type='type_id', min_count=0):
         ex.rules_fired.append(('range-for over detail::range{first, last}', n))
         return body
     return rule
+
+
+def vector_locals(cpp_type_regex, c_type, min_count=0, max_count=None):
+    """`std::vector<T> a, b;` -> one empty shim vector per declarator."""
+    rx = re.compile(r'\bstd::vector<\s*%s\s*>\s+(\w+(?:\s*,\s*\w+)*)\s*;' % cpp_type_regex)
+
+    def rule(ex, body):
+        n = [0]
+
+        def rep(m):
+            n[0] += 1
+            return ' '.join('%s %s; %s.n = 0;' % (c_type, v.strip(), v.strip()) for v in m.group(1).split(','))
+        body = rx.sub(rep, body)
+        if n[0] < min_count or (max_count is not None and n[0] > max_count):
+            raise ExtractionBroken("vector-local rule fired %d times (expected %s..%s) in %s" % (n[0], min_count, max_count, ex.where()))
+        ex.rules_fired.append(('std::vector<...> locals -> empty shim vectors', n[0]))
+        return body
+    return rule
+
+
+def inline_using_aliases(ex, body):
+    """`using name = type-expression;` local alias declarations are removed and
+    every later use of the alias is replaced by the (parenthesis-free) type expression."""
+    n = 0
+    while True:
+        m = re.search(r'\busing\s+(\w+)\s*=\s*([^;]+);', body)
+        if not m:
+            break
+        name, rhs = m.group(1), norm_ws(m.group(2))
+        rest = body[m.end():]
+        rest = re.sub(r'(?<![\w:])%s\b' % re.escape(name), lambda _m: rhs, rest)
+        body = body[:m.start()] + rest
+        n += 1
+    ex.rules_fired.append(('local using-alias inlined', n))
+    return body
